@@ -31,6 +31,7 @@ import CtyModel.Lemmas.d14Dispatch
 import CtyModel.Lemmas.d14bRef
 import CtyModel.Lemmas.d14bJoin
 import CtyModel.Lemmas.d14bDuration
+import CtyModel.Lemmas.d14bTimestamp
 import CtyModel.Props.C02
 namespace CtyModel
 namespace C14
@@ -1302,6 +1303,37 @@ theorem duration_corner_cases :
     (["", "-", "+", "00", "1", ".s", "-.s", "1x", "1hh", "1h1", "1h.", "1.0.5s", "1e3s", " 1s", "1s ", "1H", "1d",
       "9223372036854775808ns", "-9223372036854775809ns", "92233720368547758080ns", "2562048h",
       "2562047h47m16s854ms775us808ns", "2562047h2562047h"].all fun s => durAccepts s.toList == some false) = true := by
+  decide
+
+open D14b in
+/-- The RFC 3339 parser (`parseRFC3339` transliterated) only accepts timestamps whose every field is
+in its calendar range — month 1..12, day within the month (leap years by the Gregorian rule), hour ≤ 23,
+minute and second ≤ 59 (no leap second), zone offset strictly inside ±24 h — and reports the weekday of
+that date. -/
+theorem timestamp_fields_in_range (s : List Char) (t : Time) (h : goParseRFC3339 s = some t) :
+    t.year ≤ 9999 ∧ 1 ≤ t.month ∧ t.month ≤ 12 ∧ 1 ≤ t.day ∧ t.day ≤ daysIn t.month t.year ∧
+    t.hour ≤ 23 ∧ t.minute ≤ 59 ∧ t.second ≤ 59 ∧ t.weekday = weekdayOf t.year t.month t.day ∧
+    -86400 < t.offset ∧ t.offset < 86400 := goParseRFC3339_ranges h
+
+open D14b in
+/-- With the parser transliterated, `formatdate` depends on no recorded library answer except NFC:
+tokenizer, verbs, parser, calendar and weekday are all inside the model that is diffed against /repo. -/
+theorem formatdate_depends_only_on_nfc (L L' : Lib) (h : L.nfc = L'.nfc) (args : List Value) :
+    formatDateImpl (refLibTs L) args = formatDateImpl (refLibTs L') args := formatDateImpl_only_nfc L L' h args
+
+open D14b in
+/-- The strictness of the parser, evaluated: leap days by the Gregorian rule (2020 and 2000 yes, 2021 and
+1900 no), no hour 24, no second 60, upper-case `T` and `Z` only, a period must be followed by a digit,
+offsets up to ±23:59, nothing before or after. -/
+theorem timestamp_corner_cases :
+    (["2021-06-13T12:07:09Z", "2020-02-29T23:59:59.123+05:30", "2000-02-29T00:00:00Z", "0000-01-01T00:00:00-23:59",
+      "9999-12-31T23:59:59.999999999999Z"].all fun s => (goParseRFC3339 s.toList).isSome) = true ∧
+    (["2021-02-29T00:00:00Z", "1900-02-29T00:00:00Z", "2021-06-13T24:07:09Z", "2021-06-13T12:07:60Z", "2021-06-13t12:07:09Z",
+      "2021-06-13T12:07:09z", "2021-06-13T12:07:09.Z", "2021-06-13T12:07:09,5Z", "2021-06-13T12:07:09+24:00",
+      "2021-06-13T12:07:09+05:60", "2021-06-13T12:07:09", "2021-06-13T12:07:09ZZ", " 2021-06-13T12:07:09Z", "2021-13-01T00:00:00Z",
+      "2021-04-31T00:00:00Z", "2021-06-13T3:07:09Z", "21-06-13T12:07:09Z", "2021-06-13 12:07:09Z", "2021-06-13T12:07:09+0530"].all
+        fun s => (goParseRFC3339 s.toList).isNone) = true ∧
+    (goParseRFC3339 "2021-06-13T12:07:09-03:30".toList = some ⟨2021, 6, 13, 0, 12, 7, 9, -12600⟩) := by
   decide
 
 -- d14b examples: the hypotheses are jointly satisfiable, and the functions compute
